@@ -32,6 +32,33 @@ Operations (JSON-able):
                                              document (values may be None), see
                                              TASK_DOC_FIELDS
     ['remove_pilots', pid | [pid, ...]]      real TaskManager.remove_pilots
+    ['add_pilots', pid | [pid, ...]]         real TaskManager.add_pilots (one Pilot
+                                             object, or a list of them in one call)
+    ['task_update', uid, code, extras]       real Task._update called directly
+    ['fault', uid | 'none']                  from now on as_dict of that task raises
+                                             (per-instance patch): a per-task
+                                             exception inside the callback's loop
+    ['death_race', pid, code, how, [[uid, batch], ...]]
+        TaskManager._pilot_state_cb as one of two writers of Task.state: when the
+        callback has selected `uid` (found it bound and not final) and is about to
+        call its Task._update(FAILED), the state subscriber delivers `batch` first
+        (same thread, explicit schedule point; _pilot_state_cb holds no lock).
+        Recorded as DeathBegin, [Notify, DeathApply]*, DeathEnd.
+    ['notify_race', batch, [[point, op], ...]]
+        the same race the other way round: TaskManager._update_tasks is under way
+        and another thread (the pilot callback: a 'pilot_final' or 'pnotify' op)
+        runs at `point`: [uid, k] = before the k-th Task._update of this call on
+        uid (k = 0: the passed states are computed, none applied), or
+        ['fire', k] = before the k-th TASK_STATE callback of this call.
+        Recorded as NotifyBegin, [NotifyPartial, <events of op>]*, NotifyEnd.
+
+Logical threads and locks: the rig is single threaded; every operation runs as a
+named logical thread ('sub' the state subscriber, 'pcb' the pilot callback,
+'pmgr' the pilot manager's subscriber).  TaskManager._tasks_lock is replaced by
+a lock that knows which logical thread holds it: an operation injected at a
+schedule point that needs the lock while the interrupted thread holds it cannot
+run there (it would block) and is carried out after the interrupted call
+returned.  So a repair that takes the lock is seen as such.
     ['bind', uid, pid]                       full task dict with 'pilot'
     ['pilot_final', pid, code, how, echo]    how: 'list' | 'single'
     ['pnotify', [[type, pid, code], ...]]
@@ -130,6 +157,15 @@ TASK_DOC_FIELDS = {
     'return_value'    : [None, 'rv'],
     'task_sandbox'    : [None, 'file://localhost/tmp/task.sandbox/'],
     'target_state'    : [None, 'DONE', 'FAILED'],
+    # placement as the agent scheduler publishes it: list of slots (continuous
+    # scheduler), or one dict with 'ranks' (hombre scheduler)
+    'slots'           : [None,
+                         [{'node_name': 'n1', 'node_index': 0, 'cores': [0], 'gpus': [],
+                           'lfs': 0, 'mem': 0}],
+                         {'ranks': [{'name': 'n1', 'uid': 'n1', 'core_map': [[0]],
+                                     'gpu_map': [], 'lfs': 0, 'mem': 0}],
+                          'cores_per_node': 4, 'gpus_per_node': 0,
+                          'lfs_per_node': 0, 'mem_per_node': 0}],
 }
 
 
@@ -141,6 +177,40 @@ def doc_kind(v):
     if isinstance(v, int):
         return 'int%d' % v
     return 'str' if v else 'empty'
+
+
+class WouldBlock(BaseException):
+    '''the injected logical thread needs a lock the interrupted one holds'''
+
+
+class TrackingLock(object):
+    '''re-entrant lock for logical threads of a single-threaded rig'''
+
+    def __init__(self, rig):
+        self.rig, self.owner, self.depth = rig, None, 0
+
+    def acquire(self, blocking=True, timeout=-1):
+        me = self.rig._lt
+        if self.owner not in (None, me):
+            raise WouldBlock()
+        self.owner  = me
+        self.depth += 1
+        return True
+
+    def release(self):
+        self.depth -= 1
+        if self.depth <= 0:
+            self.owner, self.depth = None, 0
+
+    def __enter__(self):
+        return self.acquire()
+
+    def __exit__(self, *a):
+        self.release()
+
+
+LTHREAD = {'notify': 'sub', 'bind': 'sub', 'notify_race': 'sub', 'task_update': 'app',
+           'pilot_final': 'pcb', 'death_race': 'pcb', 'pnotify': 'pmgr'}
 
 
 class FakeSub(object):
@@ -165,11 +235,22 @@ class FakePilot(object):
 # ------------------------------------------------------------------------------
 class ClientRig(object):
 
-    def __init__(self, tasks, pilots, init_bound=None):
+    def __init__(self, tasks, pilots, init_bound=None, modes=None, add=None):
+        '''modes: {uid: 'service'} (default: executable tasks);
+           add  : how the pilots reach the task manager at start: list of groups,
+                  a group is a pid (add_pilots(pilot)) or a list of pids
+                  (add_pilots([..]) in one call); default: one call per pilot;
+                  pilots in no group join later through the 'add_pilots' op'''
 
         self.tasks  = list(tasks)
         self.pilots = list(pilots)
         self.init_bound = {t: (init_bound or {}).get(t, 'none') for t in self.tasks}
+        self.modes  = dict(modes or {})
+        self.add    = list(self.pilots) if add is None else list(add)
+        self.init_added = [p for g in self.add for p in ru.as_list(g)]
+        self._faults = dict()    # uid -> patcher
+        self._depth  = 0         # > 0: inside an operation injected at a schedule point
+        self._lt     = 'main'    # logical thread that runs the current operation
 
         self.tlog   = list()     # (uid, announced, Task.state)   manager-level cb
         self.ulog   = list()     # (uid, announced, Task.state)   task-level cb
@@ -189,7 +270,7 @@ class ClientRig(object):
         tm._log        = log
         tm._prof       = log
         tm._tasks      = dict()
-        tm._tasks_lock = mt.RLock()
+        tm._tasks_lock = TrackingLock(self)
         tm._pilots     = dict()
         tm._pilots_lock = mt.RLock()
         tm._callbacks  = {m: dict() for m in rpc.TMGR_METRICS}
@@ -226,16 +307,25 @@ class ClientRig(object):
         for pid in self.pilots:
             pilot = self._make_pilot(pid)
             pm._pilots[pid] = pilot
-            # the real path: attach_tmgr, as_dict, register _pilot_state_cb
-            tm.add_pilots(pilot)
             pilot.register_callback(self._pilot_cb_pilot)
         pm.register_callback(self._pilot_cb_mgr)
+
+        # the real path: attach_tmgr, as_dict, register _pilot_state_cb
+        for group in self.add:
+            self._add_pilots(group)
+
+    def _add_pilots(self, group):
+        if isinstance(group, list):
+            return self.tm.add_pilots([self.pm._pilots[p] for p in group])
+        return self.tm.add_pilots(self.pm._pilots[group])
 
     # --------------------------------------------------------------------------
     def _make_task(self, uid, pilot):
         descr = {'uid': uid, 'executable': '/bin/true'}
         if pilot != 'none':
             descr['pilot'] = pilot
+        if self.modes.get(uid) == 'service':
+            descr['mode'] = rp.TASK_SERVICE
         t = Task.__new__(Task)
         t._tmgr             = self.tm
         t._descr            = TaskDescription(descr)
@@ -321,7 +411,14 @@ class ClientRig(object):
     # ---- projection ---------------------------------------------------------------
     def _mark(self):
         return (len(self.tlog), len(self.ulog), len(self.plog), len(self.pplog),
-                len(self.calls), self.stray)
+                len(self.calls), self.stray, len(self.published))
+
+    def _as_dict_works(self, task):
+        try:
+            task.as_dict()
+            return True
+        except Exception:
+            return False
 
     def _detail(self, task):
         d = task.exception_detail
@@ -331,7 +428,9 @@ class ClientRig(object):
         return hit[0] if len(hit) == 1 else 'other'
 
     def _snapshot(self, mark):
-        m_t, m_u, m_p, m_pp, m_c, m_s = mark
+        m_t, m_u, m_p, m_pp, m_c, m_s, m_pub = mark
+        pub   = set(d.get('uid') for bulk in self.published[m_pub:] for d in bulk
+                    if d.get('state') == rps.FAILED)
         tpost = dict()
         for uid in self.tasks:
             task = self.tm._tasks[uid]
@@ -342,7 +441,12 @@ class ClientRig(object):
                           'tcbs' : [x[1] for x in self.ulog[m_u:] if x[0] == uid],
                           'pilot': task.pilot or 'none',
                           'det'  : self._detail(task),
-                          'exc'  : task.exception is not None}
+                          'exc'  : task.exception is not None,
+                          'pub'  : uid in pub,           # handed to advance as FAILED
+                          'asd'  : self._as_dict_works(task),
+                          'inj'  : uid in self._faults,  # as_dict fault injected by the rig
+                          'sk'   : 'dict' if isinstance(task._slots, dict) else
+                                   'list' if task._slots else 'none'}
         ppost = dict()
         for pid in self.pilots:
             pilot = self.pm._pilots[pid]
@@ -370,6 +474,27 @@ class ClientRig(object):
 
     def apply(self, op):
         '''run one operation against the real code, return the recorded events'''
+        outer    = self._lt
+        self._lt = LTHREAD.get(op[0], 'main')
+        try:
+            return self._apply(op)
+        finally:
+            self._lt = outer
+
+    def _inject(self, op):
+        '''run `op` as another logical thread at a schedule point of the current
+           one; None if it would block on a lock the current one holds'''
+        self._depth += 1
+        try:
+            return self.apply(op)
+        except WouldBlock:
+            # only taken at the very start of the paths injected here
+            # (_update_tasks, _pilot_state_cb under a lock): nothing happened
+            return None
+        finally:
+            self._depth -= 1
+
+    def _apply(self, op):
         kind = op[0]
         mark = self._mark()
 
@@ -408,6 +533,27 @@ class ClientRig(object):
             raised, ret = self._call(self.tm.remove_pilots, arg)
             ev = {'ev': 'RemovePilots', 'pilots': list(ru.as_list(arg))}
 
+        elif kind == 'add_pilots':
+            raised, ret = self._call(self._add_pilots, op[1])
+            ev = {'ev': 'AddPilots', 'pilots': list(ru.as_list(op[1]))}
+
+        elif kind == 'task_update':
+            uid, code = op[1], int(op[2])
+            d = {'uid': uid, 'state': TNAMES[code]}
+            d.update(copy.deepcopy(op[3] if len(op) > 3 and op[3] else {}))
+            raised, ret = self._call(self.tm._tasks[uid]._update, d)
+            ev = {'ev': 'TaskUpdate', 'uid': uid, 'state': code}
+
+        elif kind == 'fault':
+            self._set_fault(op[1])
+            return []
+
+        elif kind == 'death_race':
+            return self._death_race(op)
+
+        elif kind == 'notify_race':
+            return self._notify_race(op)
+
         elif kind == 'pnotify':
             batch = [[e[0], e[1], int(e[2])] for e in op[1]]
             dicts = list()
@@ -436,10 +582,148 @@ class ClientRig(object):
         events = [ev]
 
         # what _pilot_state_cb published comes back on the state pubsub
-        if kind == 'pilot_final' and len(op) > 4 and op[4] and self.published:
+        if kind == 'pilot_final' and len(op) > 4 and op[4] and len(self.published) > mark[6]:
             echo = [[d['uid'], tcode(d['state'])] for d in self.published[-1]]
             if echo:
                 events += self.apply(['notify', echo])
+        return events
+
+    # --------------------------------------------------------------------------
+    def _set_fault(self, uid):
+        for u in list(self._faults):
+            self._faults.pop(u).stop()
+        if uid and uid != 'none':
+            from unittest import mock
+            patcher = mock.patch.object(self.tm._tasks[uid], 'as_dict',
+                                        side_effect=RuntimeError('injected: as_dict of %s' % uid))
+            patcher.start()
+            self._faults[uid] = patcher
+
+    def _death_race(self, op):
+        from unittest import mock
+        pid, code, how = op[1], int(op[2]), op[3]
+        windows = {w[0]: w[1] for w in (op[4] if len(op) > 4 else [])}
+        inner   = list()
+        blocked = dict()
+        mark0   = self._mark()
+        begin   = {'ev': 'DeathBegin', 'pilot': pid, 'pst': code, 'raised': False, 'ret': 'none'}
+        begin.update(self._snapshot(mark0))
+
+        def wrap(task):
+            real = task._update                       # the real bound method
+
+            def _update(task_dict, reconnect=False):
+                if self._depth:                       # a call of the subscriber path
+                    return real(task_dict, reconnect)
+                uid = task.uid
+                if uid in windows:                    # schedule point: selected, not yet applied
+                    batch = windows.pop(uid)
+                    evs   = self._inject(['notify', batch])
+                    if evs is None:                   # the subscriber waits for the lock
+                        blocked[uid] = batch
+                    else:
+                        inner.extend(evs)
+                mark = self._mark()
+                ev   = {'ev': 'DeathApply', 'pilot': pid, 'uid': uid, 'raised': False, 'ret': 'none'}
+                try:
+                    return real(task_dict, reconnect)
+                except Exception as e:
+                    ev.update({'raised': True, 'ret': type(e).__name__})
+                    raise
+                finally:
+                    ev.update(self._snapshot(mark))
+                    inner.append(ev)
+            return mock.patch.object(task, '_update', _update)
+
+        patchers = [wrap(t) for t in self.tm._tasks.values()]
+        for p_ in patchers:
+            p_.start()
+        try:
+            fake = FakePilot(pid, PNAMES[code])
+            raised, ret = self._call(self.tm._pilot_state_cb,
+                                     [fake] if how == 'list' else fake)
+        finally:
+            for p_ in patchers:
+                p_.stop()
+        end = {'ev': 'DeathEnd', 'pilot': pid, 'raised': raised, 'ret': ret}
+        end.update(self._snapshot(mark0))
+        # the callbacks of the whole call were shown with the inner events
+        for u in end['tpost']:
+            end['tpost'][u].update({'cbs': [], 'at': [], 'tcbs': []})
+        events = [begin] + inner + [end]
+        # windows the callback never reached (task not selected), notifications that
+        # had to wait for the lock: delivered afterwards
+        windows.update(blocked)
+        for uid in list(windows):
+            events += self.apply(['notify', windows.pop(uid)])
+        return events
+
+    def _notify_race(self, op):
+        from unittest import mock
+        points  = {(p[0][0], int(p[0][1])): p[1] for p in (op[2] if len(op) > 2 else [])}
+        counts  = collections.Counter()
+        inner   = list()
+        waiting = list()
+        last    = [self._mark()]
+        begin   = {'ev': 'NotifyBegin', 'batch': [[e[0], int(e[1])] for e in op[1]],
+                   'raised': False, 'ret': 'none'}
+        begin.update(self._snapshot(last[0]))
+
+        def point(key):
+            if self._depth or key not in points:
+                return
+            act = points.pop(key)
+            # where the interrupted call stands
+            part = {'ev': 'NotifyPartial', 'raised': False, 'ret': 'none'}
+            part.update(self._snapshot(last[0]))
+            evs = self._inject(act)
+            if evs is None:
+                waiting.append(act)                   # the other thread waits for the lock
+                return
+            inner.append(part)
+            inner.extend(evs)
+            last[0] = self._mark()
+
+        def wrap(task):
+            real = task._update
+
+            def _update(task_dict, reconnect=False):
+                if not self._depth:
+                    k = counts[task.uid]
+                    counts[task.uid] += 1
+                    point((task.uid, k))
+                return real(task_dict, reconnect)
+            return mock.patch.object(task, '_update', _update)
+
+        real_cb = self.tm._task_cb
+
+        def _task_cb(task, state):
+            if not self._depth:
+                k = counts['fire']
+                counts['fire'] += 1
+                point(('fire', k))
+            return real_cb(task, state)
+
+        patchers = [wrap(t) for t in self.tm._tasks.values()] + \
+                   [mock.patch.object(self.tm, '_task_cb', _task_cb)]
+        for p_ in patchers:
+            p_.start()
+        try:
+            dicts = list()
+            for e in op[1]:
+                d = {'type': 'task', 'uid': e[0], 'state': TNAMES[int(e[1])]}
+                d.update(copy.deepcopy(e[2] if len(e) > 2 and e[2] else {}))
+                dicts.append(d)
+            raised, ret = self._notify(dicts)
+        finally:
+            for p_ in patchers:
+                p_.stop()
+        end = {'ev': 'NotifyEnd', 'batch': begin['batch'], 'raised': raised, 'ret': ret}
+        end.update(self._snapshot(last[0]))
+        events = [begin] + inner + [end]
+        # points never reached, threads that waited for the lock: run afterwards
+        for act in waiting + [points[k] for k in sorted(points, key=str)]:
+            events += self.apply(act)
         return events
 
     # --------------------------------------------------------------------------
@@ -451,8 +735,10 @@ class ClientRig(object):
             if iso and op[0] == 'notify':
                 evs[0]['iso'] = self._isolation(ops, k, pre)
             events += evs
+        self._set_fault(None)
         return {'tasks': self.tasks, 'pilots': self.pilots,
-                'init_bound': self.init_bound, 'events': events}
+                'init_bound': self.init_bound, 'init_added': self.init_added,
+                'events': events}
 
     def _isolation(self, ops, k, pre):
         '''the real code on the same history, batch without the entries of one
@@ -462,7 +748,7 @@ class ClientRig(object):
         for rm in sorted(set(e[0] for e in batch)):
             rest = [e for e in batch if e[0] != rm]
             if rest:
-                other = ClientRig(self.tasks, self.pilots, self.init_bound)
+                other = ClientRig(self.tasks, self.pilots, self.init_bound, self.modes, self.add)
                 tr    = other.run(list(ops[:k]) + [['notify', rest]], iso=False)
                 tpost = tr['events'][-1]['tpost']
                 post  = {u: {'st': tpost[u]['st'], 'cbs': tpost[u]['cbs']} for u in self.tasks}
@@ -472,5 +758,5 @@ class ClientRig(object):
         return out
 
 
-def run_ops(tasks, pilots, init_bound, ops, iso=True):
-    return ClientRig(tasks, pilots, init_bound).run(ops, iso=iso)
+def run_ops(tasks, pilots, init_bound, ops, iso=True, modes=None, add=None):
+    return ClientRig(tasks, pilots, init_bound, modes, add).run(ops, iso=iso)
